@@ -277,7 +277,9 @@ def run(prop: str, tier: str) -> int:
             for j in jobs:
                 spec['jobfn'](j, jrnd)
         if spec.get('sweeps'):
-            jobs += make_sweeps(prop, sample, scheds, seed, spec['sweeps'][tier])
+            # line-boundary injection starts from interrupt-free behaviours (the TLC-placed interrupts are in `scheds`)
+            base_scheds = harness.simulate_schedules(sample, scratch, num=max(200, sim['num'] // 10), seed=seed + 2, max_int=0)
+            jobs += make_sweeps(prop, sample, base_scheds, seed, spec['sweeps'][tier])
         tp['simulate'] = round(time.time() - t1, 1)
         t1 = time.time()
         # 3. drive the code: R2 / serial in-process, and a sample on real processes (R3)
